@@ -247,7 +247,7 @@ fn short_inputs() -> &'static Vec<(Ev, String)> {
     CELL.get_or_init(|| {
         let mut v = Vec::new();
         for ev in Ev::ALL {
-            let mut xs: Vec<&str> = vec!["12+34", "2*(3+4)", "abs(-2)", "sqrt(16)", "pow(2,10)", "1)", "2**3", "(1", "12 34", "ab s(2)", "@^2", "2²", "1,2", "root(2,9)"];
+            let mut xs: Vec<&str> = vec!["\u{feff}1+2", "1+2\u{feff}", "\u{200b}1+2", "1\u{feff}+2", "12+34", "2*(3+4)", "abs(-2)", "sqrt(16)", "pow(2,10)", "1)", "2**3", "(1", "12 34", "ab s(2)", "@^2", "2²", "1,2", "root(2,9)"];
             match ev {
                 Ev::I64 => xs.extend(["1<<3", "7>>1", "6&3|1", "gcd(12,18)", "signum(-5)", "median(1,2,3)", "5!", "1< <2"]),
                 Ev::Cpx => xs.extend(["2i*3i", "1.5i", "sin(1+i)", "pi", "π/2", "arsinh(1)", "90°", "1rad", "1.5 i"]),
